@@ -634,6 +634,12 @@ func c15ContinueWakes(c *Ctx, r *Result, dbgIface *types.Interface) {
 			if op, ok := condOpOf(in); ok && (op.Kind == "Broadcast" || op.Kind == "Signal") {
 				st.Flags["woke"] = true
 			}
+			// a helper that wakes on every path (is.wake())
+			if ci, ok := in.(ssa.CallInstruction); ok {
+				if g := ci.Common().StaticCallee(); g != nil && c.inModule(g) && alwaysWakes(g, 0) {
+					st.Flags["woke"] = true
+				}
+			}
 		}
 		o.AtReturn = func(st *PState, ret *ssa.Return) {
 			if st.Get(okV, o) != AvNonNil {
@@ -1322,5 +1328,43 @@ func c01ScopeWalkRecursive(c *Ctx, r *Result, entry *ssa.Function) bool {
 		r.Instance("R01h", site, c.Pos(helper.Pos()), "ok", fmt.Sprintf("recursive descent in %s: %d returns, each the deeper level's answer or taken on an exhausted path / a missing step", key, n), true)
 	}
 	r.Floor("R01h", n, 2)
+	return true
+}
+
+// alwaysWakes: a Broadcast/Signal (or a call of a function that always wakes) dominates every return.
+func alwaysWakes(g *ssa.Function, depth int) bool {
+	if len(g.Blocks) == 0 || depth > 2 {
+		return false
+	}
+	var wakes, rets []ssa.Instruction
+	allInstrs(g, func(in ssa.Instruction) {
+		if _, isRet := in.(*ssa.Return); isRet && in.Block() != g.Recover {
+			rets = append(rets, in)
+		}
+		if _, isDefer := in.(*ssa.Defer); isDefer {
+			return
+		}
+		if op, ok := condOpOf(in); ok && (op.Kind == "Broadcast" || op.Kind == "Signal") {
+			wakes = append(wakes, in)
+		} else if ci, ok := in.(ssa.CallInstruction); ok {
+			if h := ci.Common().StaticCallee(); h != nil && h != g && len(h.Blocks) > 0 && h.Pkg == g.Pkg && alwaysWakes(h, depth+1) {
+				wakes = append(wakes, in)
+			}
+		}
+	})
+	if len(rets) == 0 {
+		return false
+	}
+	for _, rt := range rets {
+		ok := false
+		for _, w := range wakes {
+			if dominates(w, rt) {
+				ok = true
+			}
+		}
+		if !ok {
+			return false
+		}
+	}
 	return true
 }
